@@ -124,6 +124,94 @@ fn main() {
                 writeln!(out, "M {} {}", mon::hex(&gen::render_random(&sa.tokens(), &mut r)), mon::hex(&gen::render_random(&sb.tokens(), &mut r))).unwrap();
             }
         }
+        Some("shrink") => {
+            // vmon shrink <engine> <clause> <hex>: minimise a failing byte case for one clause
+            let name = args.get(2).expect("engine name");
+            let clause = args.get(3).expect("clause").clone();
+            let e = engines.iter().find(|e| e.name == *name).unwrap_or_else(|| {
+                eprintln!("unknown engine {}", name);
+                std::process::exit(2)
+            });
+            let Some(f) = e.replay_bytes else {
+                eprintln!("engine {} has no byte replay", name);
+                std::process::exit(2)
+            };
+            let bytes = mon::unhex(args.get(4).expect("hex bytes"));
+            let still = |c: &[u8]| f(c).iter().any(|g| g.clause == clause);
+            if !still(&bytes) {
+                println!("{}", json!({"engine": name, "clause": clause, "reproduced": false}));
+                std::process::exit(0);
+            }
+            // keep a leading tag byte (entry point / mask mode / subtag kind) fixed while shrinking
+            let tagged = matches!(name.as_str(), "c01" | "c09" | "c15");
+            let min = if tagged && !bytes.is_empty() {
+                let tag = bytes[0];
+                let body = mon::shrink_bytes(&bytes[1..], &mut |c: &[u8]| {
+                    let mut t = vec![tag];
+                    t.extend_from_slice(c);
+                    still(&t)
+                });
+                let mut t = vec![tag];
+                t.extend_from_slice(&body);
+                t
+            } else {
+                mon::shrink_bytes(&bytes, &mut |c: &[u8]| still(c))
+            };
+            let detail = f(&min).into_iter().find(|g| g.clause == clause).map(|g| g.detail).unwrap_or_default();
+            println!("{}", json!({"engine": name, "clause": clause, "reproduced": true, "min_hex": mon::hex(&min), "min_text": String::from_utf8_lossy(if tagged && !min.is_empty() { &min[1..] } else { &min }), "detail": detail}));
+            std::process::exit(1);
+        }
+        Some("gen-fuzz-corpus") => {
+            // seed corpus + dictionary for the libFuzzer targets (harness/fuzz): deterministic in seed
+            let dir = args.get(2).expect("output directory").clone();
+            let seed: u64 = arg_after(&args, "--seed").and_then(|s| s.parse().ok()).unwrap_or(1);
+            std::fs::create_dir_all(format!("{}/parsers", dir)).unwrap();
+            std::fs::create_dir_all(format!("{}/history", dir)).unwrap();
+            let mut r = rng::Rng::new(rng::mix(&[seed, 0xF022]));
+            let mut n = 0usize;
+            let put = |sub: &str, b: &[u8], n: &mut usize| {
+                std::fs::write(format!("{}/{}/seed-{:05}", dir, sub, *n), b).unwrap();
+                *n += 1;
+            };
+            let corpus = gen::corpus();
+            for (i, s) in corpus.iter().enumerate() {
+                if i % 9 == 0 {
+                    let mut b = s.clone().into_bytes();
+                    b.extend_from_slice(gen::SUFFIXES[i % gen::SUFFIXES.len()].as_bytes());
+                    put("parsers", &b, &mut n);
+                }
+            }
+            for _ in 0..1500 {
+                let sl = gen::gen_sloc(&mut r, true, true);
+                put("parsers", &gen::render_random(&sl.tokens(), &mut r), &mut n);
+            }
+            gen::enum_seq(gen::WIDE, 2, 0, 1, &mut |b| put("parsers", b, &mut n));
+            let mut m = 0usize;
+            for _ in 0..400 {
+                let len = 2 + r.below(40);
+                let b: Vec<u8> = (0..len).map(|_| r.below(256) as u8).collect();
+                put("history", &b, &mut m);
+            }
+            let mut dict = String::new();
+            let mut toks: Vec<&[u8]> = gen::WIDE.iter().chain(gen::NARROW.iter()).chain(gen::LANGID_ALPHA.iter()).cloned().collect();
+            toks.sort();
+            toks.dedup();
+            for t in toks {
+                if t.is_empty() {
+                    continue;
+                }
+                dict.push('"');
+                for c in t {
+                    dict.push_str(&format!("\\x{:02x}", c));
+                }
+                dict.push_str("\"\n");
+            }
+            for t in ["-u-", "-t-", "-x-", "-true", "_", "-"] {
+                dict.push_str(&format!("\"{}\"\n", t));
+            }
+            std::fs::write(format!("{}/parsers.dict", dir), dict).unwrap();
+            println!("{}", json!({"parsers_seeds": n, "history_seeds": m}));
+        }
         Some("gen-macro-cases") => {
             // literals for the macro lab (C16): one JSON object per line
             let quick = arg_after(&args, "--tier").as_deref() != Some("thorough");
